@@ -436,11 +436,15 @@ class HttpParser(abc.ABC, Generic[_MsgT]):
                         if SEC_WEBSOCKET_KEY1 in msg.headers:
                             raise InvalidHeader(SEC_WEBSOCKET_KEY1)
 
-                        upgraded = msg.upgrade and _is_supported_upgrade(msg.headers)
-
                         method = getattr(msg, "method", self.method)
                         # code is only present on responses
                         code = getattr(msg, "code", 0)
+
+                        # A request may ask for any protocol and be declined;
+                        # a 101 response *is* the switch, whatever the protocol.
+                        upgraded = msg.upgrade and (
+                            code == 101 or _is_supported_upgrade(msg.headers)
+                        )
 
                         assert self.protocol is not None
                         # calculate payload
